@@ -1772,6 +1772,60 @@ fn layout_ref(seed: u64) -> serde_json::Value {
     json!({"found": false, "routine": "layout_ref", "tried": tried})
 }
 
+// C08: two parameterisations of one custom operation used in ONE context on the same argument types must both instantiate
+// (a name collision makes run_instantiation_pass fail with "names must be unique", or - worse - would reuse the wrong graph)
+fn name_collision(_seed: u64) -> serde_json::Value {
+    use ciphercore_base::graphs::Node;
+    use ciphercore_base::mpc::low_mc::{LowMC, LowMCBlockSize};
+    use ciphercore_base::ops::clip::Clip2K;
+    use ciphercore_base::ops::fixed_precision::fixed_multiply::FixedMultiply;
+    use ciphercore_base::ops::fixed_precision::fixed_precision_config::FixedPrecisionConfig;
+    use ciphercore_base::ops::integer_key_sort::SortByIntegerKey;
+    use ciphercore_base::ops::pwl::approx_gelu::ApproxGelu;
+    use ciphercore_base::ops::pwl::approx_gelu_derivative::ApproxGeluDerivative;
+    use ciphercore_base::ops::pwl::approx_sigmoid::ApproxSigmoid;
+    use ciphercore_base::ops::comparisons::GreaterThan;
+    use ciphercore_base::ops::long_division::LongDivision;
+    type Case = (&'static str, Vec<Type>, Box<dyn Fn() -> (CustomOperation, CustomOperation)>);
+    let i64a = array_type(vec![4], INT64);
+    let table = named_tuple_type(vec![("a".to_owned(), array_type(vec![5], UINT32)), ("b".to_owned(), array_type(vec![5], UINT32))]);
+    let cases: Vec<Case> = vec![
+        ("SortByIntegerKey { key } with two keys", vec![table.clone()], Box::new(|| (CustomOperation::new(SortByIntegerKey { key: "a".to_owned() }), CustomOperation::new(SortByIntegerKey { key: "b".to_owned() })))),
+        ("ApproxGelu { approximation_log_buckets } 4 vs 5", vec![i64a.clone()], Box::new(|| (CustomOperation::new(ApproxGelu { precision: 10, approximation_log_buckets: 4 }), CustomOperation::new(ApproxGelu { precision: 10, approximation_log_buckets: 5 })))),
+        ("ApproxGeluDerivative { approximation_log_buckets } 4 vs 5", vec![i64a.clone()], Box::new(|| (CustomOperation::new(ApproxGeluDerivative { precision: 10, approximation_log_buckets: 4 }), CustomOperation::new(ApproxGeluDerivative { precision: 10, approximation_log_buckets: 5 })))),
+        ("ApproxSigmoid { approximation_log_buckets } 4 vs 5", vec![i64a.clone()], Box::new(|| (CustomOperation::new(ApproxSigmoid { precision: 10, approximation_log_buckets: 4 }), CustomOperation::new(ApproxSigmoid { precision: 10, approximation_log_buckets: 5 })))),
+        ("FixedMultiply { config.debug } false vs true", vec![i64a.clone(), i64a.clone()], Box::new(|| (CustomOperation::new(FixedMultiply { config: FixedPrecisionConfig { fractional_bits: 10, debug: false } }), CustomOperation::new(FixedMultiply { config: FixedPrecisionConfig { fractional_bits: 10, debug: true } })))),
+        ("LowMC { block_size } 80 vs 128 on 80-bit blocks", vec![array_type(vec![2, 80], BIT), array_type(vec![128], BIT)], Box::new(|| (CustomOperation::new(LowMC { s_boxes_per_round: 10, rounds: 20, block_size: LowMCBlockSize::SIZE80 }), CustomOperation::new(LowMC { s_boxes_per_round: 10, rounds: 20, block_size: LowMCBlockSize::SIZE128 })))),
+        ("Clip2K { k } 3 vs 4", vec![array_type(vec![2, 16], BIT)], Box::new(|| (CustomOperation::new(Clip2K { k: 3 }), CustomOperation::new(Clip2K { k: 4 })))),
+        ("GreaterThan { signed } false vs true", vec![array_type(vec![2, 16], BIT), array_type(vec![2, 16], BIT)], Box::new(|| (CustomOperation::new(GreaterThan { signed_comparison: false }), CustomOperation::new(GreaterThan { signed_comparison: true })))),
+        ("LongDivision { signed } false vs true", vec![array_type(vec![2], INT32), array_type(vec![2], INT32)], Box::new(|| (CustomOperation::new(LongDivision { signed: false }), CustomOperation::new(LongDivision { signed: true })))),
+    ];
+    let mut tried = 0; let mut found: Vec<serde_json::Value> = vec![];
+    for (what, types, mk) in cases {
+        tried += 1;
+        let r = catch_unwind(AssertUnwindSafe(|| -> std::result::Result<(), String> {
+            let (o1, o2) = mk();
+            let same = if o1.get_name() == o2.get_name() { format!("both parameterisations are named {:?}; ", o1.get_name()) } else { String::new() };
+            let c = create_context().map_err(|e| e.to_string())?; let g = c.create_graph().map_err(|e| e.to_string())?;
+            let ins: Vec<Node> = types.iter().map(|t| g.input(t.clone()).unwrap()).collect();
+            // each alone must be accepted by the builder; if one is rejected for its own reasons the case says nothing
+            let n1 = match g.custom_op(o1, ins.clone()) { Ok(n) => n, Err(_) => return Ok(()) };
+            let n2 = match g.custom_op(o2, ins.clone()) { Ok(n) => n, Err(_) => return Ok(()) };
+            g.create_tuple(vec![n1, n2]).and_then(|o| o.set_as_output()).map_err(|e| e.to_string())?;
+            g.finalize().and_then(|g| g.set_as_main()).map_err(|e| e.to_string())?; c.finalize().map_err(|e| e.to_string())?;
+            match run_instantiation_pass(c) { Ok(_) => if same.is_empty() { Ok(()) } else { Err(format!("{}the context instantiates all the same", same)) },
+                Err(e) => Err(format!("{}run_instantiation_pass fails: {}", same, e.to_string().lines().next().unwrap_or(""))) }
+        }));
+        let obs = match r { Ok(Ok(())) => continue, Ok(Err(m)) => m, Err(_) => "panic".to_owned() };
+        found.push(json!({"operations": what, "argument_types": types.iter().map(|t| format!("{}", t)).collect::<Vec<_>>(), "observed": obs}));
+    }
+    if !found.is_empty() {
+        return json!({"found": true, "routine": "name_collision", "property": "C08", "input": found[0].clone(), "all_failing_cases": found,
+            "expected": "two different names; the context instantiates", "what": "CustomOperation::get_name / run_instantiation_pass on a context using both parameterisations on the same argument types"});
+    }
+    json!({"found": false, "routine": "name_collision", "tried": tried})
+}
+
 fn main() {
     let args: Vec<String> = std::env::args().collect();
     let seed: u64 = args.get(2).and_then(|s| s.parse().ok()).unwrap_or(0);
@@ -1792,6 +1846,7 @@ fn main() {
         Some("share_roundtrip") => share_roundtrip(seed),
         Some("prng_stream") => prng_stream(seed),
         Some("layout_ref") => layout_ref(seed),
+        Some("name_collision") => name_collision(seed),
         Some("matmul_ref") => matmul_ref(seed),
         Some("optimizer_equiv") => optimizer_equiv(seed),
         Some("perm_roundtrip") => perm_roundtrip(seed),
